@@ -240,12 +240,6 @@ func (c *child) canonContain() {
 		}
 	}
 	th.d2h(m, A.Off+200, B.Off+256+100-(A.Off+200), bt, false, "d2h", -1)
-	if debugTrace {
-		pd := m.pend[len(m.pend)-1]
-		th.c.drain(0, m.queues[0])
-		g := pd.bytesOf()
-		fmt.Printf("GOT %x want %x\n", g[B.Off-(A.Off+200):B.Off-(A.Off+200)+16], pd.want[B.Off-(A.Off+200):B.Off-(A.Off+200)+16])
-	}
 	th.drainAll()
 	c.count("canonical_cases|contain-slack-d2h", 1)
 	// (4) the same for H2D: the copy must not be undone by a later write-back
